@@ -812,7 +812,10 @@ class _Evaluator:
             elif op == 'ovr':
                 O = b[1] if O is _UNSET else _add(O, b[1], False, True)
             elif op == 'ovl':
-                O = _Acc([b[1]]) if O is _UNSET else _add(O, b[1], True, True)
+                if O is None:
+                    O = UNSPEC  # a list override after an override that matched nothing: not documented
+                else:
+                    O = _Acc([b[1]]) if O is _UNSET else _add(O, b[1], True, True)
         if O is not _UNSET:
             if self.dev_open and isinstance(O, (_Acc, _Open)):
                 return _Open(_plain(O))
